@@ -4,7 +4,7 @@ import (
 	"pgregory.net/rapid"
 )
 
-var commentBodies = []string{"", " c", " caf\ufffd x", "\ufffd", " \U0001F600 astral", " tab\there", " é comment", ` "quoted" `, " `tick` ", " # nested // x", "x{}()", " if (flag(A)) {"}
+var commentBodies = []string{"", " c", " 7 steps to the left", " 12 \"file.pory\"", "\t3. then this", ` data\maps\`, ` art \\`, " caf\ufffd x", "\ufffd", " \U0001F600 astral", " tab\there", " é comment", ` "quoted" `, " `tick` ", " # nested // x", "x{}()", " if (flag(A)) {"}
 
 // drawGaps draws n+1 layout gaps (before each of n tokens and after the last one).
 // Each gap is whitespace and/or comments; a comment always ends with a newline.
